@@ -50,6 +50,10 @@ claim("C18", "must-precede/once queries on go/cfg, who-may-mutate the callback q
       "Static rules over engine/socket.go and the transports: packetCreate once before buffering; the flush/drain skeleton (session and server events around one Send, same batch value, only on a non-empty hand-off to a writable transport); exactly one callback group pushed per hand-off on every path, one popped per transport drain, run in slice order, queues mutated only by flush/onDrain/OnClose/sendPacket and cleared before the close event; transports emit drain only on send completion; no application code (session/server Emit, SendCallback, AllowRequest, middleware) runs with a mutex held that Send/Close can re-acquire — violated at four emits under flushMu in flush (listed findings, deterministic self-deadlock). Queue alignment under drains racing with the next flush for all schedules is not decided.",
       TB, "DESIGN.md §3 C18")
 
+claim("C05", "constant table vs README/protocol table, precedence read off the CFG by pass-edge dominance of reject returns, unavoidable-check reachability, path-sensitive abstract evaluation of ComputePath over the slash/no-slash domain, call-site classification of abort calls",
+      "Static rules over engine/base-server.go, engine/server.go, types/serve.go: the six error variables equal the documented (and README) table; Verify's reject returns are ordered by pass-edge dominance exactly as the documented precedence and the admitting return cannot bypass any check of its branch; Verify runs only after middleware success and Handshake only when admitted, the revision check dominating every session-creating action; abortRequest maps 403 iff FORBIDDEN and marshals {code, default-or-hook message} after setting headers and status; every rejection emits connection_error exactly once (call-site classification, one named exception); no reject path creates a session; ComputePath yields a slash-terminated pattern on every feasible path unless AddTrailingSlash() is explicitly false, Attach mounts it, ServeMux cleans, matches exact-then-prefix and falls back to the default handler; upgrade-time rejections are closed with the message. The full decision table over concrete request bytes is not decided.",
+      TB, "DESIGN.md §3 C05")
+
 UNDER_CONSTRUCTION = "static rule set designed in DESIGN.md §3 but its checker is not built yet in this revision; not claimed until it is"
 
 def main():
